@@ -40,6 +40,18 @@ Ops == IF ~mem.up THEN {} ELSE
 Sites(op) == LET ps == PointsOf(fs, mem, op) IN
              {[p |-> ps[i], n |-> Cardinality({j \in 1..i : ps[j] = ps[i]})] : i \in 1..Len(ps)}
 
+\* coverage tags of an operation (generation mode): every crash point it passes
+\* with the kind of the operation, and "shrinks" when a Replace installs a log
+\* file with fewer records than the one it replaces (then the old index is
+\* longer than the new log between the two renames)
+Tags(op) ==
+  LET pl == Plan(fs, mem, op)
+      ps == PointsOf(fs, mem, op)
+      written(k) == Len(Flat([i \in 1..Len(pl) |-> IF pl[i].i = "wlog" /\ pl[i].k = k THEN pl[i].recs ELSE <<>>]))
+      shrinks == \E i \in 1..Len(pl) : pl[i].i = "mvlog" /\ written(pl[i].k) < Len(Get(fs.lf, pl[i].t))
+  IN {<<ps[i], op.a>> : i \in 1..Len(ps)}
+     \cup (IF shrinks THEN {<<"replace.after_rename_log", op.a, "shrinks">>} ELSE {})
+
 Snapshot(op, p) == [sc |-> Sc, nw |-> NewestOf(mem), lastBase |-> Last(mem.segs).base, hw |-> mem.hw, op |-> op, p |-> p]
 
 MCInit ==
@@ -55,7 +67,7 @@ MCOp(op) ==
   /\ phase = "pre" /\ nOps < MaxOps
   /\ DoOp(op)
   /\ last' = op /\ nOps' = nOps + 1 /\ nVal' = nVal + Count(op) /\ hist' = Append(hist, op)
-  /\ pts' = IF GenMode THEN pts \cup RangeOf(PointsOf(fs, mem, op)) ELSE pts
+  /\ pts' = IF GenMode THEN pts \cup Tags(op) ELSE pts
   /\ UNCHANGED <<phase, pre, nPost, nRec>>
 
 MCCrash(op, p, n) ==
@@ -64,6 +76,16 @@ MCCrash(op, p, n) ==
   /\ DoCrash(op, p, n)
   /\ phase' = "down" /\ pre' = Snapshot(op, p)
   /\ last' = [a |-> "Crash", op |-> op, p |-> p, n |-> n]
+  /\ nVal' = nVal + Count(op) /\ hist' = Append(hist, last')
+  /\ UNCHANGED <<nOps, nPost, pts, nRec>>
+
+\* torn write: the append is killed inside its log write, k complete records kept
+MCCrashTorn(op, k) ==
+  /\ ~GenMode
+  /\ phase = "pre" /\ nOps < MaxOps
+  /\ DoCrashTorn(op, k)
+  /\ phase' = "down" /\ pre' = Snapshot(op, "append.after_log_write")
+  /\ last' = [a |-> "Crash", op |-> op, p |-> "append.after_log_write", n |-> 1, torn |-> k]
   /\ nVal' = nVal + Count(op) /\ hist' = Append(hist, last')
   /\ UNCHANGED <<nOps, nPost, pts, nRec>>
 
@@ -103,6 +125,7 @@ MCNext ==
   \/ MCSwitch
   \/ \E op \in Ops : MCOp(op)
   \/ \E op \in Ops : \E c \in Sites(op) : c.n <= MaxHit /\ MCCrash(op, c.p, c.n)
+  \/ \E op \in {o \in Ops : o.a \in {"Append", "AppendSet"}} : \E k \in 0..(Len(op.recs) - 1) : MCCrashTorn(op, k)
   \/ MCRecover
   \/ \E c \in RecSites : MCRecoverCrash(c.p, c.n)
   \/ \E op \in Ops : MCPost(op)
@@ -125,10 +148,12 @@ StepOK ==
          (/\ C05_Durable(pre.op, pre.sc, pre.lastBase, ScanOf(fs', mem'))
           /\ C05_NoPhantom(pre.op, pre.sc, pre.nw, ScanOf(fs', mem'))
           /\ C05_HW(pre.hw, mem'.hw)
+          /\ C05_NoGhost(Ghostable(pre.op, pre.sc, pre.lastBase, pre.nw), ScanOf(fs', mem'), NewestOf(mem'))
           /\ StateOK1(fs', mem'))
     [] OTHER ->
          Tainted \/
          (/\ P_Op(a, Sc, NewestOf(mem), Last(mem.segs).base, mem.hw, obs', ScanOf(fs', mem'), mem'.hw)
+          /\ C05_NoGhost(Ghostable(a, Sc, Last(mem.segs).base, NewestOf(mem)), ScanOf(fs', mem'), NewestOf(mem'))
           /\ StateOK1(fs', mem'))
 StepsOK == [][StepOK]_mcvars
 
